@@ -311,9 +311,21 @@ impl Number {
     pub fn round(&self) -> Number {
         match self {
             Number::Fixnum(_) => self.clone(),
-            Number::Float(num) => num.round().into(),
+            // a tie goes to the even neighbour (R7RS 6.2.6), not away from zero
+            Number::Float(num) => num.round_ties_even().into(),
             Number::BigInt(_) => self.clone(),
-            Number::Rational(num) => num.round().into(),
+            Number::Rational(num) => {
+                let num = widen(num);
+                let floor = num.floor();
+                let twice = (num - floor) * Rational64::from_integer(2);
+                let floor = floor.to_integer();
+                match twice.cmp(&Rational64::from_integer(1)) {
+                    Ordering::Less => floor.into(),
+                    Ordering::Greater => (floor + 1).into(),
+                    Ordering::Equal if floor % 2 == 0 => floor.into(),
+                    Ordering::Equal => (floor + 1).into(),
+                }
+            }
         }
     }
 
